@@ -98,37 +98,26 @@ int start_cgreen_messaging(int tag) {
 }
 
 void send_cgreen_message(int messaging, int result) {
-    CgreenMessage *message;
-    
-    message = (CgreenMessage *) malloc(sizeof(CgreenMessage));
-    if (message == NULL) {
-      return;
-    }
-    memset(message, 0, sizeof(*message));
-    message->type = queues[messaging].tag;
-    message->result = result;
+    /* No allocation here: a result that cannot be sent must never be dropped silently */
+    CgreenMessage message;
+
+    memset(&message, 0, sizeof(message));
+    message.type = queues[messaging].tag;
+    message.result = result;
     CGREEN_VERIF_KILLPOINT("before_write");
-    cgreen_pipe_write(queues[messaging].writepipe, message, sizeof(CgreenMessage));
+    cgreen_pipe_write(queues[messaging].writepipe, &message, sizeof(CgreenMessage));
     CGREEN_VERIF_KILLPOINT("after_write");
     // give the parent a chance to read so that failures are more likely to be output
     // before the child crashes
     sched_yield();
-
-    free(message);
 }
 
 int receive_cgreen_message(int messaging) {
     ssize_t received;
-    int result;
-    CgreenMessage *message = (CgreenMessage *) malloc(sizeof(CgreenMessage));
-    if (message == NULL) {
-      return -1;
-    }
+    CgreenMessage message;
 
-    received = cgreen_pipe_read(queues[messaging].readpipe, message, sizeof(CgreenMessage));
-    result = (received > 0 ? message->result : 0);
-    free(message);
-    return result;
+    received = cgreen_pipe_read(queues[messaging].readpipe, &message, sizeof(CgreenMessage));
+    return (received > 0 ? message.result : 0);
 }
 
 static void clean_up_messaging(void) {
